@@ -1,7 +1,9 @@
 package rules
 
 import (
+	"go/constant"
 	"go/token"
+	"go/types"
 	"sort"
 	"strings"
 
@@ -17,6 +19,7 @@ func init() {
 		"(R05.2) check-then-acquire in one critical section for both backends; (R05.3) collection respects references: a memory segment is removed only when closed, unreferenced and not the live one; a disk segment only when its reference count is zero; " +
 		"(R05.4) the memory backend appends a writer only at the last segment's right edge; (R05.5) readers hand references over acquire-before-release; (R05.6) a reset closes every blob with the error before dropping the lists; " +
 		"(R05.7) the cached snapshot is offered only through the 'all bytes present and log continues it' predicate, and removing a snapshot segment clears 'replayable'; (R05.8) the disk reader rotates to the file named by its own right edge and advances its edge by exactly the bytes read; " +
+		"(R05.9) a freshly opened disk segment is positioned right behind its header as the last file operation of openFile on every successful return, a logical offset maps to headerSize + (offset − left), and GetReader seeks to the requested offset before publishing the reader; (R08.1, shared with C08) the disk snapshot is committed only when every announced byte was written; " +
 		"(R05.10) the snapshot and the log stay joined: the disk collector removes no log file on a path that keeps a referenced snapshot, the memory backend stops offering the snapshot when the log no longer starts at its offset."
 	All["C08"] = c08
 	core.Explanations["C08"] = "Decides necessary structural conditions of 'after an unclean stop the disk cache serves only bytes it truly holds': " +
@@ -337,6 +340,11 @@ func c05(w *core.World, r *core.Report) {
 	r.Rule("R05.8", "disk reader rotation follows its own right edge", 2)
 	ruleReaderRotation(w, r)
 
+	r.Rule("R05.9", "segment reader positioning: a freshly opened segment is read from right behind its header, a logical offset maps to headerSize + (offset - left), GetReader seeks to the requested offset before publishing and reports it", 5)
+	ruleReaderPositioning(w, r)
+	ruleReaderLeft(w, r)
+	r.Rule("R08.1", "snapshot commit point (shared with C08): a snapshot becomes offerable only when every announced byte was written", 3)
+	ruleRdbCommit(w, r)
 	r.Rule("R05.10", "snapshot and log stay joined under collection", 2)
 	ruleJointUnderGc(w, r)
 }
@@ -729,7 +737,7 @@ func c08(w *core.World, r *core.Report) {
 	r.Rule("R08.3", "gap truncation before publication keeps the newest run and drops the snapshot", 3)
 	r.Rule("R08.6", "contiguity includes the snapshot/log joint", 1)
 	ruleTruncateGap(w, r)
-	r.Rule("R08.4", "verification on open when enabled; corrupted-error on size or checksum mismatch on every path", 3)
+	r.Rule("R08.4", "verification on open when enabled; corrupted-error on size or checksum mismatch on every path; only a segment that is still being written is exempt", 4)
 	ruleVerifyOnOpen(w, r)
 	r.Rule("R08.5", "segment header finalised at close: header fields ≺ Seek(0) ≺ Write(header) ≺ Sync/Close", 1)
 	ruleCloseAof(w, r)
@@ -801,7 +809,17 @@ func ruleRdbCommit(w *core.World, r *core.Report) {
 				continue
 			}
 			ph, isPhi := b.X.(*ssa.Phi)
-			if !isPhi || ph.Comment != "rdbSize" {
+			if !isPhi {
+				continue
+			}
+			// the remaining-bytes counter: the loop variable initialised from the announced size
+			fromSize := false
+			for _, e := range ph.Edges {
+				if core.IsFieldLoad(core.Unwrap(e), "RdbWriter", "rdbSize") {
+					fromSize = true
+				}
+			}
+			if !fromSize {
 				continue
 			}
 			n++
@@ -1011,6 +1029,38 @@ func ruleVerifyOnOpen(w *core.World, r *core.Report) {
 		})
 		r.Check(bad == "" && n >= 2, "AofRotateReader.isCorrupted/spec", f.Pos(), "%s", bad)
 	}
+	// the only segment exempt from verification is one that is still being written: hasWriter must mean exactly "size still open"
+	if f := fn(w, r, "(*pkg/store.Storer).hasWriter"); f != nil {
+		bad := ""
+		var pos token.Pos = f.Pos()
+		n := 0
+		for _, in := range core.Instrs(f) {
+			ret, ok := in.(*ssa.Return)
+			if !ok || len(ret.Results) != 1 {
+				continue
+			}
+			for _, v := range core.RetVals(ret, 0) {
+				n++
+				if b, isC := core.ConstBool(v); isC && !b {
+					continue
+				}
+				okOpen := false
+				if be, isB := core.Unwrap(v).(*ssa.BinOp); isB && be.Op == token.EQL {
+					x, y := core.Unwrap(be.X), core.Unwrap(be.Y)
+					if k, isK := core.ConstInt(x); isK && k == -1 {
+						x, y = y, x
+					}
+					if k, isK := core.ConstInt(y); isK && k == -1 && isResultOf("(*pkg/store.dataSetAof).Size", -1)(x) {
+						okOpen = true
+					}
+				}
+				if !okOpen {
+					bad, pos = "hasWriter answers true for something other than 'the segment's size is still open (-1)': such a segment is served without its size and checksum being verified", ret.Pos()
+				}
+			}
+		}
+		r.Check(bad == "" && n >= 2, "Storer.hasWriter/only-open-segment", pos, "%s", bad)
+	}
 	if f := fn(w, r, "pkg/store.newRdbReader"); f != nil {
 		ok := false
 		for _, s := range core.SitesNamed(f, false, "(*pkg/store.RdbReader).checkHeader") {
@@ -1085,4 +1135,217 @@ func ruleCloseAof(w *core.World, r *core.Report) {
 		}
 	}
 	r.Check(ok && syncAfter, "AofRotater.closeAof/header-finalised", f.Pos(), "the header must be filled (checksum, size), written at offset 0 and only then synced and closed (order ok=%v, sync/close after write=%v)", ok, syncAfter)
+}
+
+// ---------------------------------------------------------------- R05.9 segment reader positioning
+
+// fileMovers returns the methods of AofRotateReader that (transitively, within
+// the type) read or seek the reader's file: calling one leaves the file
+// position undefined for the caller.
+func fileMovers(w *core.World) map[*ssa.Function]bool {
+	movers := map[*ssa.Function]bool{}
+	var ms []*ssa.Function
+	for _, f := range w.FuncsIn("pkg/store") {
+		if strings.HasPrefix(core.FuncName(f), "(*pkg/store.AofRotateReader).") {
+			ms = append(ms, f)
+		}
+	}
+	for changed := true; changed; {
+		changed = false
+		for _, f := range ms {
+			if movers[f] {
+				continue
+			}
+			for _, s := range core.Sites(f, false) {
+				if s.Name == "(*os.File).Read" || s.Name == "(*os.File).Seek" || (s.Callee != nil && movers[s.Callee]) {
+					movers[f] = true
+					changed = true
+					break
+				}
+			}
+		}
+	}
+	return movers
+}
+
+func ruleReaderPositioning(w *core.World, r *core.Report) {
+	var hdr int64 = -1
+	if p := w.Pkg("pkg/store"); p != nil {
+		if c, ok := p.Types.Scope().Lookup("headerSize").(*types.Const); ok {
+			if v, ok := constant.Int64Val(c.Val()); ok {
+				hdr = v
+			}
+		}
+	}
+	if hdr <= 0 {
+		r.Unresolved("pkg/store.headerSize", "constant headerSize not found")
+		return
+	}
+	isHdr := func(v ssa.Value) bool { c, ok := core.ConstInt(core.Unwrap(v)); return ok && c == hdr }
+	isZero := func(v ssa.Value) bool { c, ok := core.ConstInt(core.Unwrap(v)); return ok && c == 0 }
+	movers := fileMovers(w)
+
+	// (a) openFile leaves the file right behind the header on every successful return
+	if f := fn(w, r, "(*pkg/store.AofRotateReader).openFile"); f != nil {
+		var final []core.Site
+		var moves []core.Site
+		for _, s := range core.Sites(f, false) {
+			switch {
+			case s.Name == "(*os.File).Seek":
+				moves = append(moves, s)
+				if a := s.Args(); len(a) >= 2 && isHdr(a[0]) && isZero(a[1]) {
+					final = append(final, s)
+				}
+			case s.Name == "(*os.File).Read" || (s.Callee != nil && movers[s.Callee] && s.Callee != f):
+				moves = append(moves, s)
+			}
+		}
+		bad := ""
+		var badPos token.Pos = f.Pos()
+		nret := 0
+		for _, in := range core.Instrs(f) {
+			ret, ok := in.(*ssa.Return)
+			if !ok {
+				continue
+			}
+			nilRet := false
+			for _, v := range core.RetVals(ret, 0) {
+				if core.IsNilConst(v) {
+					nilRet = true
+				}
+			}
+			if !nilRet {
+				continue
+			}
+			nret++
+			okRet := false
+			for _, s := range final {
+				if !core.Dominates(s.Instr, ret) || !core.OnSuccessOf(ret.Block(), s.Value()) {
+					continue
+				}
+				// nothing moves the file between the final seek and the return
+				later := core.PathFrom(f, s.Instr, func(x ssa.Instruction) bool {
+					for _, m := range moves {
+						if m.Instr == x {
+							return true
+						}
+					}
+					return false
+				}, core.Is(ret))
+				if later == nil {
+					okRet = true
+				}
+			}
+			if !okRet {
+				bad, badPos = "a successful return is reached without the file having been positioned at headerSize as the last file operation (a verification pass or header read before it leaves the position elsewhere, or at 0)", ret.Pos()
+			}
+		}
+		r.Check(bad == "" && nret >= 1, "AofRotateReader.openFile/positioned-behind-header", badPos, "%s", bad)
+	}
+
+	// (b) Seek maps a logical offset to headerSize + (offset - left) and moves the right edge by the same distance
+	if f := fn(w, r, "(*pkg/store.AofRotateReader).Seek"); f != nil {
+		okPos, okRight := false, false
+		var dis ssa.Value
+		for _, s := range core.SitesNamed(f, false, "(*os.File).Seek") {
+			a := s.Args()
+			if len(a) < 2 || !isZero(a[1]) {
+				continue
+			}
+			if b, ok := core.Unwrap(a[0]).(*ssa.BinOp); ok && b.Op == token.ADD {
+				x, y := core.Unwrap(b.X), core.Unwrap(b.Y)
+				if isHdr(y) {
+					x, y = y, x
+				}
+				if isHdr(x) {
+					if d, ok := y.(*ssa.BinOp); ok && d.Op == token.SUB && core.Unwrap(d.X) == ssa.Value(f.Params[1]) && core.IsFieldLoad(core.Unwrap(d.Y), "AofRotateReader", "left") {
+						okPos = true
+						dis = d
+					}
+				}
+			}
+		}
+		for _, in := range core.Instrs(f) {
+			st, isSt := in.(*ssa.Store)
+			if !isSt {
+				continue
+			}
+			if fa, isFa := st.Addr.(*ssa.FieldAddr); isFa && core.FieldName(fa) == "right" {
+				if b, isB := st.Val.(*ssa.BinOp); isB && b.Op == token.ADD && core.IsFieldLoad(core.Unwrap(b.X), "AofRotateReader", "right") && dis != nil && core.Unwrap(b.Y) == dis {
+					okRight = true
+				}
+			}
+		}
+		r.Check(okPos && okRight, "AofRotateReader.Seek/logical-to-file", f.Pos(), "a logical offset must map to file position headerSize + (offset − left) (%v) and the reader's right edge must move by the same distance (%v)", okPos, okRight)
+	}
+
+	// (c) GetReader positions a fresh segment reader at the requested offset before publishing it
+	if f := fn(w, r, "(*pkg/store.Storer).GetReader"); f != nil {
+		ok := false
+		var pos token.Pos = f.Pos()
+		for _, mk := range core.SitesNamed(f, false, "pkg/store.NewAofRotateReader") {
+			pos = mk.Pos()
+			for _, sk := range core.SitesNamed(f, false, "(*pkg/store.AofRotateReader).Seek") {
+				if !core.Dominates(mk.Instr, sk.Instr) || core.Unwrap(sk.Args()[0]) != ssa.Value(f.Params[1]) {
+					continue
+				}
+				pub := true
+				for _, ad := range core.SitesNamed(f, false, "(*pkg/store.dataSetAof).AddReader") {
+					if !core.Dominates(sk.Instr, ad.Instr) || !core.OnSuccessOf(ad.Instr.Block(), sk.Value()) {
+						pub = false
+					}
+				}
+				ok = pub
+			}
+		}
+		r.Check(ok, "Storer.GetReader/seek-to-requested-offset", pos, "a new segment reader must be moved to the requested offset, with the result tested, before it is registered and returned")
+	}
+}
+
+// ruleReaderLeft: the position a cache reader reports (Reader.Left) is what
+// the replay adds decoder offsets to; for a log reader it must be the
+// requested offset (the reader is seeked there), for a snapshot reader the
+// snapshot's own offset.
+func ruleReaderLeft(w *core.World, r *core.Report) {
+	f := fn(w, r, "(*pkg/store.Storer).GetReader")
+	if f == nil {
+		return
+	}
+	n := 0
+	for _, in := range core.Instrs(f) {
+		st, ok := in.(*ssa.Store)
+		if !ok {
+			continue
+		}
+		fa, ok := st.Addr.(*ssa.FieldAddr)
+		if !ok || core.FieldName(fa) != "left" || !strings.HasSuffix(core.TypeName(fa.X.Type()), "pkg/store.Reader") {
+			continue
+		}
+		n++
+		v := core.Unwrap(st.Val)
+		// which kind of reader is being filled in on this path?
+		afterAof, afterRdb := false, false
+		for _, s := range core.Sites(f, false) {
+			if s.Instr.Block() == nil || !core.Dominates(s.Instr, st) {
+				continue
+			}
+			switch s.Name {
+			case "pkg/store.NewAofRotateReader":
+				afterAof = true
+			case "pkg/store.NewRdbReader":
+				afterRdb = true
+			}
+		}
+		switch {
+		case afterAof && !afterRdb:
+			r.Check(v == ssa.Value(f.Params[1]), "Storer.GetReader/log-reader-left", st.Pos(), "a log reader is positioned at the requested offset, so the position it reports must be the requested offset; reporting the segment's start shifts every replayed item's offset (and the stored resume position) back by the distance into the segment")
+		case afterRdb && !afterAof:
+			r.Check(isResultOf("(*pkg/store.dataSetRdb).Left", -1)(v), "Storer.GetReader/snapshot-reader-left", st.Pos(), "a snapshot reader must report the snapshot's own offset")
+		default:
+			r.Undecided("Storer.GetReader/reader-left", st.Pos(), "cannot tell which kind of reader this position belongs to")
+		}
+	}
+	if n < 2 {
+		r.Fail("Storer.GetReader/reader-left", f.Pos(), "expected the reader's reported position to be set for the log and the snapshot reader (found %d)", n)
+	}
 }
